@@ -260,8 +260,8 @@ func checkC18(c *Check) {
 		}
 		}
 		fetchSame := false
-		for _, ci := range callsTo(gw, "net/http.Client.Get") {
-			if a := callArgs(ci); len(a) == 1 && resolveCell(stripConv(a[0])) == ssa.Value(urlParam) {
+		for _, ci := range callsToDeep(gw, 2, "net/http.Client.Get") {
+			if a := callArgs(ci); len(a) == 1 && urlParam != nil && (resolveCell(stripConv(a[0])) == ssa.Value(urlParam) || originsAre(P, a[0], urlParam, 2)) {
 				fetchSame = true
 			}
 		}
